@@ -14,7 +14,7 @@ KINDS = {
     'not', 'and', 'or', 'inv', 'sub', 'slice', 'fstr', 'star', 'dstar', 'map', 'filter', 'concat', 'flat',
     'zip', 'try', 'ret', 'raise', 'loop', 'opaque', 'upd', 'setitem', 'delitem', 'after_try', 'eff', 'phi',
     'loopout', 'break', 'continue', 'poly', 'ge0', 'eq0', 'ne0', 'strcat', 'handler', 'blk', 'kw', 'meta',
-    'neg', 'setattr', 'expr', 'yield', 'seq',
+    'neg', 'setattr', 'expr', 'yield', 'seq', 'pretry', 'intry',
 }
 
 
@@ -692,7 +692,20 @@ MUTATORS = {'append', 'extend', 'insert', 'pop', 'remove', 'clear', 'sort', 'rev
 
 class _Leave:
     """pseudo statement: leaving a try body"""
-    def __init__(self, tag): self.tag = tag
+    def __init__(self, tag, assigned=()):
+        self.tag = tag
+        self.assigned = tuple(assigned)
+
+
+def _may_raise(t):
+    """evaluating the term does something beyond reading names / attributes / building displays (a lambda is a leaf)"""
+    if not is_node(t):
+        return False
+    if t[0] in ('var', 'const', 'glob', 'bv', 'lam', 'pretry', 'intry'):
+        return False
+    if t[0] in ('attr', 'tuple', 'list', 'dict', 'kw', 'set'):
+        return any(_may_raise(c) for c in children(t))
+    return True
 
 
 class FuncLower:
@@ -743,6 +756,10 @@ class FuncLower:
         for i, st in enumerate(stmts):
             rest = stmts[i + 1:]
             if isinstance(st, _Leave):
+                # what the try body computed was evaluated inside it, wherever the name is used later
+                for nm in st.assigned:
+                    if nm in lw.env and _may_raise(lw.env[nm]):
+                        lw.env[nm] = ('intry', lw.env[nm])
                 return ('after_try', self.block(rest, lw, eff))
             if _is_doc(st) or isinstance(st, ast.Pass):
                 continue
@@ -835,6 +852,18 @@ class FuncLower:
                     lw.env[n] = ('try', val, tuple(('handler', ht, hl.env.get(n, lw.env.get(n, C('<unbound>')))) for ht, hl in hvals))
                 continue
             if isinstance(st, ast.Try):
+                # `try: x = E  except: raise ...` followed only by `return x` (and observational statements): returning a local
+                # cannot raise and no handler falls through, so the return belongs to the try body (`try: return E`)
+                if not st.orelse and not st.finalbody and st.handlers and \
+                        all(h.body and isinstance(h.body[-1], (ast.Raise, ast.Return)) for h in st.handlers):
+                    live = [r for r in rest if not (_is_doc(r) or isinstance(r, ast.Pass) or
+                                                    (isinstance(r, ast.Expr) and isinstance(r.value, ast.Call) and _observational(r.value)))]
+                    top = {t.id for b in st.body if isinstance(b, (ast.Assign, ast.AnnAssign))
+                           for t in (b.targets if isinstance(b, ast.Assign) else [b.target]) if isinstance(t, ast.Name)}
+                    if len(live) == 1 and isinstance(live[0], ast.Return) and isinstance(live[0].value, ast.Name) \
+                            and live[0].value.id in top:
+                        st = ast.Try(body=list(st.body) + [live[0]], handlers=st.handlers, orelse=[], finalbody=[])
+                        rest = []
                 handlers = []
                 for h in st.handlers:
                     hl = lw.clone()
@@ -843,7 +872,13 @@ class FuncLower:
                         hl.env[h.name] = V('exc')
                     htype = lw.e(h.type) if h.type is not None else C('bare')
                     handlers.append(('handler', htype, self.block(list(h.body) + [_Leave('h')] + rest, hl, eff)))
-                body = self.block(list(st.body) + list(st.orelse) + [_Leave('t')] + list(st.finalbody) + rest, lw.clone(), eff)
+                assigned = sorted({n.id for b in list(st.body) + list(st.orelse) for n in ast.walk(b)
+                                   if isinstance(n, ast.Name) and isinstance(n.ctx, ast.Store)})
+                bl = lw.clone()
+                for nm, tm in list(bl.env.items()):     # computed before the try: not covered by its handlers
+                    if _may_raise(tm):
+                        bl.env[nm] = ('pretry', tm)
+                body = self.block(list(st.body) + list(st.orelse) + [_Leave('t', assigned)] + list(st.finalbody) + rest, bl, eff)
                 return ('try', body, tuple(handlers))
             if isinstance(st, (ast.For, ast.While)):
                 return self.loop(st, rest, lw, eff)
